@@ -4,7 +4,7 @@
    the integral statements (is_RInt, Coquelicot) use the standard Reals axioms (see Print Assumptions). *)
 From Coq Require Import Reals Qreals.
 From Coquelicot Require Import Coquelicot.
-From V Require Import lib.Tree gen.Gen_C10_kern model.C10 model.C11 proofs.C10 proofs.C10_trap proofs.C10_ends
+From V Require Import lib.Tree gen.Gen_C10_kern model.C10 model.C11_spec proofs.C10 proofs.C10_trap proofs.C10_ends
                       proofs.C10_RInt proofs.C11_RInt proofs.C10_RIntQ.
 Open Scope Q_scope.
 
